@@ -34,6 +34,7 @@ type c18Case struct {
 	Order    []int
 	ListRev  []bool // per reconcile: the settings list is answered in reverse order (cache order is unspecified)
 	Remove   []int  // settings deleted after everything was reconciled; the others are then reconciled again
+	Pending  []int  // settings the setting controller has not reconciled yet when the pods are created (empty status)
 }
 
 func (k c18Case) String() string {
@@ -41,7 +42,7 @@ func (k c18Case) String() string {
 	for _, x := range k.Settings {
 		s = append(s, fmt.Sprintf("%s/%s{t=%d sel=%q ref=%q}", x.NS, x.Name, x.CreatedAt, x.Selector, x.Ref))
 	}
-	return fmt.Sprintf("settings=[%s] nodes=%v order=%v listReversed=%v removedAfterwards=%v", strings.Join(s, " "), k.Nodes, k.Order, k.ListRev, k.Remove)
+	return fmt.Sprintf("settings=[%s] nodes=%v order=%v listReversed=%v removedAfterwards=%v notYetReconciled=%v", strings.Join(s, " "), k.Nodes, k.Order, k.ListRev, k.Remove, k.Pending)
 }
 
 // c18Bad: selectors that cannot be converted (In without values, an unknown operator, an illegal value).
@@ -102,6 +103,13 @@ func c18Draw(rt *rapid.T) c18Case {
 	}
 	k.Order = rapid.Permutation(idx).Draw(rt, "order")
 	k.ListRev = rapid.SliceOfN(rapid.Bool(), 2*n, 2*n).Draw(rt, "listReversed")
+	if rapid.IntRange(0, 3).Draw(rt, "somePending") == 0 {
+		for i := 0; i < n; i++ {
+			if rapid.IntRange(0, 2).Draw(rt, fmt.Sprintf("s%d-pending", i)) == 0 {
+				k.Pending = append(k.Pending, i)
+			}
+		}
+	}
 	if n > 1 && rapid.Bool().Draw(rt, "removal") {
 		for i := 0; i < n; i++ {
 			if rapid.IntRange(0, 2).Draw(rt, fmt.Sprintf("s%d-removed", i)) == 0 && len(k.Remove) < n-1 {
@@ -143,6 +151,12 @@ func runC18(k c18Case) (vs []mon.V, err error) {
 		}
 		return perm
 	}
+	pending := map[string]bool{}
+	for _, i := range k.Pending {
+		if i < len(k.Settings) {
+			pending[k.Settings[i].NS+"/"+k.Settings[i].Name] = true
+		}
+	}
 	var status map[string]edsv1.ExtendedDaemonsetSettingStatus
 	var isValid func(s c18Setting) bool
 	var matches func(s c18Setting, l map[string]string) bool
@@ -156,6 +170,9 @@ func runC18(k c18Case) (vs []mon.V, err error) {
 				if j == i {
 					step = pass*len(k.Order) + pos
 				}
+			}
+			if pending[k.Settings[i].NS+"/"+k.Settings[i].Name] {
+				continue
 			}
 			r := c.Reconcile(sim.ActorSetting, k.Settings[i].NS, k.Settings[i].Name)
 			if r.Panic != nil {
@@ -193,6 +210,9 @@ func runC18(k c18Case) (vs []mon.V, err error) {
 	}
 	for i, s := range k.Settings {
 		st := status[s.NS+"/"+s.Name]
+		if pending[s.NS+"/"+s.Name] {
+			continue // not reconciled yet: no verdict is due (its empty status must simply not count as valid)
+		}
 		if !hasRef(s) || !usable(s) {
 			if st.Status != edsv1.ExtendedDaemonsetSettingStatusError || st.Error == "" {
 				why := "no-reference"
@@ -322,7 +342,7 @@ func runC18(k c18Case) (vs []mon.V, err error) {
 }
 
 func TestC18Settings(t *testing.T) {
-	rec := evid.New("TestC18Settings", "C18", "population of 1-4 settings in one or two namespaces (creation times equal or different, selectors by labels or expressions incl. an unusable one, reference present/empty/absent/other EDS) x 0-4 labelled nodes x a reconcile order, every setting reconciled twice in that order, then optionally some settings are deleted and the others reconciled twice again (the verdict must follow the new population); oracle: malformed => error, overlapping pairs never both valid, well-formed non-overlapping => valid, invalid overlapping => conflict error; then a replica-set sync creates pods whose setting label must name a valid, matching setting of that EDS; non-trivial = two settings overlap on a node, a creation-time tie, or a malformed setting; distinct by case rendering")
+	rec := evid.New("TestC18Settings", "C18", "population of 1-4 settings in one or two namespaces (creation times equal or different, selectors by labels or expressions incl. an unusable one, reference present/empty/absent/other EDS) x 0-4 labelled nodes x a reconcile order, every setting reconciled twice in that order, optionally some settings are left unreconciled (empty status: they must not influence pods), then optionally some settings are deleted and the others reconciled twice again (the verdict must follow the new population); oracle: malformed => error, overlapping pairs never both valid, well-formed non-overlapping => valid, invalid overlapping => conflict error; then a replica-set sync creates pods whose setting label must name a valid, matching setting of that EDS; non-trivial = two settings overlap on a node, a creation-time tie, or a malformed setting; distinct by case rendering")
 	t.Cleanup(func() {
 		if !t.Failed() {
 			rec.Done()
